@@ -98,7 +98,7 @@ def rule_one_consumer(m, rep, rid='R2', parts=('receiver', 'callers')):
     n = 0
     run_region = private_region(cad, m.run, m.worker)
     for b in (cad.all_bodies if 'receiver' in parts else []):
-        if not b.file.endswith('queuing.rs'):
+        if not in_module_of(b, Q):
             continue
         n += 1
         for bi, t in b.calls():
@@ -112,6 +112,8 @@ def rule_one_consumer(m, rep, rid='R2', parts=('receiver', 'callers')):
                     continue
                 rep.sites()
                 if b.path not in run_region:
+                    if k in RECV_BENIGN and not k.endswith('::iter') and not k.endswith('into_iter'):
+                        continue        # is_empty()/len()/is_full() anywhere take nothing out of the queue
                     offenders.append((b, bi, k))
                 elif k not in DEQ_OPS and k not in RECV_BENIGN:
                     rep.unknown(rid, 'run/receiver-op', b.where(bi), 'receiver operation %s is not in the analysed set '
@@ -724,7 +726,7 @@ def rule_counters(m, rep):
         if f['name'] in m.counters.values() and type_head(f['ty']) in cad.adts:
             wrappers.add(type_head(f['ty']))
     for b in cad.all_bodies:
-        if not b.file.endswith('queuing.rs'):
+        if not in_module_of(b, Q):
             continue
         if wrappers:
             if b.impl_self and type_head(b.impl_self) in wrappers:
